@@ -39,7 +39,7 @@ func runC06(c *core.Ctx) {
 	c.MinInstances("C06-COVER", 4)
 	c.MinInstances("C06-SINGLE", 4)
 	c.MinInstances("C06-FALLBACK", 2)
-	c.MinInstances("C06-GSM7", 200)
+	c.MinInstances("C06-GSM7", 120)
 	importRules(c, "C08", "C06-GSM7", nil)
 	c.MinInstances("C06-CODEC", 30)
 	importRulesFn(c, "C05", "C06-CODEC", func(sub *core.Ctx) { cs := codecRules(sub); asciiPredicate(sub); selectRules(sub, cs) }, nil)
